@@ -17,6 +17,10 @@ Property clause → theorem
       `C20.import_accepts_full`   no InitGenesis setter can refuse a record
       `C20.validate_keys_match_store_keys`  every duplicate check of a GenesisState.Validate keys the records exactly like the store
                                   (pinned: `validate_keys_pinned`, 6 checks, all in x/liquidity) — no exception on the current tree
+      `C20.export_helpers_copy_ids_faithfully`  every id field of a record an export / import helper constructs field by field is fed
+                                  from the same-named id of the same object (`PoolId` from `pool.Id`, never `.PairId` / `.AppId`);
+                                  `C20.export_helpers_copy_fields_by_name` the same for every selected field; pinned by `copies_pinned`
+                                  (42 copies: liquidity 22, collector 17, auction 3; 15 of them id fields) — no exception on the current tree
       `C20.counters_exact_full`   every id counter / length key is restored from a stored genesis value
       `C20.fields_used_full`      every genesis field ExportGenesis fills is looked at by InitGenesis
       These are FALSE of the unchanged tree; each is stated at full strength over the table minus the explicit lists
@@ -30,7 +34,7 @@ Property clause → theorem
 -/
 namespace Comdex.C20
 open Comdex.Genesis
-open Comdex.Gen.Genesis (Module modules)
+open Comdex.Gen.Genesis (Module modules Copy)
 
 /-! ## the round-trip law -/
 
@@ -353,6 +357,36 @@ theorem validate_keys_pinned : (modules.map fun m => m.validateKeys.length) = [0
       ("ActiveFarmers", ["AppId"], ["Farmer", "AppId", "PoolId"], ["AppId", "PoolId", "Farmer"]) ∈ m.validateKeys ∧
       ("DepositRequests", ["AppId"], ["PoolId", "Id"], ["AppId", "PoolId", "Id"]) ∈ m.validateKeys ∧
       ("Orders", ["AppId"], ["PairId", "Id"], ["AppId", "PairId", "Id"]) ∈ m.validateKeys) := by decide
+
+/-- **Export / import helpers copy ids faithfully.** Every id field of a record that a function on the ExportGenesis or InitGenesis
+path constructs field by field (keyed composite literal or `rec.F = …` of a module record type) is fed from the same-named id, or
+from the `Id` of the object the field names (`PoolId` from `pool.Id`, never from `pool.PairId` / `pool.AppId`); an id taken from a
+call is taken from a getter of that very id (`LastPairId` from `GetLastPairID`). No exception on the current tree. -/
+theorem export_helpers_copy_ids_faithfully : idCopyGaps modules = [] := by decide
+
+/-- … and, for fields of ANY kind: a field selected from another record is selected from the field of the same name (or is the
+`Id` of the named object) — a record rebuilt on the way through genesis is rebuilt field for field. No exception on the current tree. -/
+theorem export_helpers_copy_fields_by_name : nameCopyGaps modules = [] := by decide
+
+/-- the field copies found (liquidity: the per-app genesis state and the farmer records rebuilt by
+`GetActiveAndQueuedFarmersForGenesis`; collector and auction: the records the genesis setters rebuild) -/
+theorem copies_pinned : (modules.map fun m => m.copies.length) = [0, 0, 0, 17, 0, 0, 3, 0, 0, 22, 0, 0, 0, 0, 0] ∧
+    (modules.map fun m => (m.copies.filter copyIdLike).length) = [0, 0, 0, 6, 0, 0, 2, 0, 0, 7, 0, 0, 0, 0, 0] ∧
+    (∃ m ∈ modules, m.name = "liquidity" ∧
+      (⟨"export", "GetActiveAndQueuedFarmersForGenesis", "QueuedFarmer", "PoolId", ["pool", "id"], "sel", ["pool"], ["pool"], ["id"], "pool.Id"⟩ : Copy) ∈ m.copies ∧
+      (⟨"export", "GetActiveAndQueuedFarmersForGenesis", "ActiveFarmer", "PoolId", ["pool", "id"], "sel", ["pool"], ["pool"], ["id"], "pool.Id"⟩ : Copy) ∈ m.copies ∧
+      (⟨"export", "ExportGenesis", "AppGenesisState", "LastPairId", ["last", "pair", "id"], "call", [], [], ["get", "last", "pair", "id"], "k.GetLastPairID(…)"⟩ : Copy) ∈ m.copies) := by decide
+
+/-- the obligation is not vacuous: the seeded change s90 (`PoolId: pool.PairId` in the queued-farmer record) is a gap, the
+unchanged line is not, and neither is an id taken from a same-named field, a same-named local or its getter -/
+example : copyIdOk ⟨"export", "GetActiveAndQueuedFarmersForGenesis", "QueuedFarmer", "PoolId", ["pool", "id"], "sel", ["pool"], ["pool"], ["pair", "id"], "pool.PairId"⟩ = false ∧
+    copyIdOk ⟨"export", "GetActiveAndQueuedFarmersForGenesis", "QueuedFarmer", "PoolId", ["pool", "id"], "sel", ["pool"], ["pool"], ["app", "id"], "pool.AppId"⟩ = false ∧
+    copyIdOk ⟨"export", "GetActiveAndQueuedFarmersForGenesis", "QueuedFarmer", "PoolId", ["pool", "id"], "sel", ["pair"], ["pair"], ["id"], "pair.Id"⟩ = false ∧
+    copyIdOk ⟨"export", "GetActiveAndQueuedFarmersForGenesis", "QueuedFarmer", "PoolId", ["pool", "id"], "sel", ["pool"], ["pool"], ["id"], "pool.Id"⟩ = true ∧
+    copyIdOk ⟨"export", "f", "R", "AppId", ["app", "id"], "ident", [], [], ["app", "id"], "appID"⟩ = true ∧
+    copyIdOk ⟨"export", "f", "R", "AppId", ["app", "id"], "ident", [], [], ["pool", "id"], "poolID"⟩ = false ∧
+    copyIdOk ⟨"export", "f", "R", "LastPairId", ["last", "pair", "id"], "call", [], [], ["get", "last", "pool", "id"], "k.GetLastPoolID(…)"⟩ = false ∧
+    (∃ m ∈ modules, (m.copies.filter copyIdLike).length > 0) := by decide
 
 /-- ∀ counter c, restoreRule c = exact — over the table minus the named gaps -/
 theorem counters_exact_full : ∀ g ∈ lossyCounters modules, listed "counter" g = true := by decide
